@@ -3,18 +3,23 @@ import json
 import os
 
 ENTRY = "enigma_csp"
-CALLS = []  # in-process log: (entry, text, reply)
+CALLS = []  # in-process log: [entry, text, reply]
 HOOK = None  # optional callable(entry, text) -> reply
 
 
 def solver(csp_description):
-    from vf.refs import ref_sugar
-
-    if HOOK is not None:
+    rec = [ENTRY, csp_description, None]
+    CALLS.append(rec)
+    if os.environ.get("VERIF_STANDIN_TRIVIAL"):
+        # C20 only needs to know that the text arrived here: answer 'unsatisfiable' in the right protocol mode
+        reply = "unsat\n" if "\n#" in csp_description else "s UNSATISFIABLE\n"
+    elif HOOK is not None:
         reply = HOOK(ENTRY, csp_description)
     else:
+        from vf.refs import ref_sugar
+
         reply = ref_sugar.answer(csp_description)
-    CALLS.append((ENTRY, csp_description, reply))
+    rec[2] = reply
     log = os.environ.get("VERIF_WIRE_LOG")
     if log:
         with open(log, "a") as f:
